@@ -39,6 +39,36 @@ def handleAlign (fs : List (List String)) : Option String :=
       | .loc i0 j0 k l cols sim => some s!"L {i0} {j0} {k} {l} {fltOut sim} {" ".intercalate (cols.map colOut)}"
       | .error => some "E"
     | none => some "bad-request"
+  | ["tbobs"] =>
+    -- tbobs | local? | a | b | flat move table ((N+1)×(M+1), row-major) | k l
+    match fs with
+    | [_, [loc], a, b, tab, kl] =>
+      let a := nats a
+      let b := nats b
+      let M := a.length
+      let N := b.length
+      let t : Array Nat := (nats tab).toArray
+      let tb := fun i j => if i ≤ N ∧ j ≤ M then t.getD (i * (M+1) + j) 99 else 99
+      if loc == "1" then
+        let k := (nats kl).getD 0 0
+        let l := (nats kl).getD 1 0
+        let ok := bordersLb tb N M && decide (k ≤ N) && decide (l ≤ M)
+        match tbLocal tb a b k l [] with
+        | some (i0, j0, cols) => some s!"L {if ok then 1 else 0} {i0} {j0} {" ".intercalate (cols.map colOut)}"
+        | none => some s!"E {if ok then 1 else 0}"
+      else
+        let ok := bordersGb tb N M
+        match tbGlobal tb a b N M [] with
+        | some cols => some s!"G {if ok then 1 else 0} {" ".intercalate (cols.map colOut)}"
+        | none => some s!"E {if ok then 1 else 0}"
+    | _ => some "bad-request"
+  | ["dist"] =>
+    match alignInput fs with
+    | some (cfg, inp) =>
+      match runDist cfg inp with
+      | some (s, d) => some s!"D {fltOut s} {fltOut d}"
+      | none => some "E"
+    | none => some "bad-request"
   | ["rescore"] =>
     -- same fields as `align`, plus a last field: i0 j0 followed by the moves (0 up,1 diag,2 left)
     match fs.getLast? with
